@@ -376,6 +376,88 @@ func (Area) Gen(r *rand.Rand, tier string, emit func(string)) {
 		}
 	}
 
+	// 4c. glue: sequences of codec uses over several descriptor sets (each in a fresh child process), and the same
+	// option-sensitive bodies through every entry point of a bridge built by the root constructor
+	histTargetsL := []string{"a1", "a2", "b"}
+	histShapesL := []string{"p", "l", "m", "n", "w"}
+	hi := 0
+	nextShape := func() string { hi++; return histShapesL[hi%len(histShapesL)] }
+	for _, t1 := range histTargetsL {
+		for _, t2 := range histTargetsL {
+			if t1 == t2 {
+				continue
+			}
+			for _, p1 := range []string{"s", "e", "x", "u"} {
+				for _, p2 := range []string{"s", "e", "x", "u", "d", "r"} {
+					if tier != "thorough" && (hi%3 == 1) && p1 != "s" {
+						hi++
+						continue
+					}
+					sh := nextShape()
+					steps := t1 + "." + p1 + "." + sh + ".0," + t2 + "." + p2 + "." + nextShape() + ".1"
+					if hi%2 == 0 {
+						steps += "," + t1 + "." + p2 + "." + sh + ".1"
+					}
+					emit("hist " + bothOpts[hi%2] + " " + steps)
+				}
+			}
+		}
+	}
+	nh := 40
+	if tier == "thorough" {
+		nh = 500
+	}
+	for i := 0; i < nh; i++ {
+		k := 2 + r.Intn(4)
+		steps := make([]string, k)
+		for j := range steps {
+			steps[j] = common.Pick(r, histTargetsL) + "." + common.Pick(r, []string{"s", "s", "e", "x", "u", "d", "r"}) + "." + common.Pick(r, histShapesL) + "." + common.Pick(r, []string{"0", "1"})
+		}
+		emit("hist " + common.Pick(r, bothOpts) + " " + strings.Join(steps, ","))
+	}
+	entryBodies := [][4]string{
+		{"sing", "enum", "", `"NOPE"`}, {"sing", "enum", "", `"E_ONE"`}, {"oneof", "enum", "", `"NOPE"`}, {"opt", "enum", "", `"NOPE"`},
+		{"rep", "enum", "", `["NOPE","E_ONE"]`}, {"map", "enum", "string", `{"a":"NOPE","b":"E_TWO"}`}, {"sing", "nullvalue", "", `"NOPE"`},
+		{"sing", "int32", "", "1.5"}, {"sing", "int32", "", "7"}, {"sing", "string", "", `"x"`},
+		{"sing", "Inner", "", `{"zzz":1}`}, {"sing", "Inner", "", `{"e":"NOPE","a":3}`}, {"oneof", "Inner", "", `{"e":"NOPE"}`}, {"rep", "Inner", "", `[{"zzz":1},{"a":2}]`},
+		{"map", "Inner", "string", `{"a":{"e":"NOPE"}}`}, {"sing", "Struct", "", `{"a":1}`},
+		{"msg", "*", "", `{"sing_enum":"NOPE"}`}, {"msg", "*", "", `{"oneof_enum":"NOPE"}`}, {"msg", "*", "", `{"rep_enum":["E_ONE","NOPE"]}`},
+		{"msg", "*", "", `{"zzz":1}`}, {"msg", "*", "", `{"sing_Inner":{"zzz":1}}`}, {"msg", "*", "", `{"sing_int32":5}`}, {"msg", "*", "", `{"m_string_enum":{"a":"NOPE"}}`},
+	}
+	var entryCfgs []string
+	for _, m := range "-sd" {
+		for _, d := range "-sd" {
+			for _, c := range "cn" {
+				entryCfgs = append(entryCfgs, string([]rune{m, d, c}))
+			}
+		}
+	}
+	for _, b := range entryBodies {
+		for _, cfg := range entryCfgs {
+			line("entry", cfg, b[0], b[1], b[2], common.HexS(b[3]))
+		}
+	}
+	ne := 60
+	if tier == "thorough" {
+		ne = 1500
+	}
+	for i := 0; i < ne; i++ {
+		kind := common.Pick(r, []string{"enum", "enum", "nullvalue", "int32", "string", "double"})
+		card := common.Pick(r, []string{"sing", "opt", "oneof", "rep", "map"})
+		key, t := "", randText(r, kind)
+		switch card {
+		case "rep":
+			t = "[" + t + "," + randText(r, kind) + "]"
+		case "map":
+			key = "string"
+			t = `{"a":` + t + `,"b":` + randText(r, kind) + `}`
+		}
+		if strings.TrimSpace(t) == "" {
+			t = "null"
+		}
+		line("entry", common.Pick(r, entryCfgs), card, kind, key, common.HexS(t))
+	}
+
 	// 5. seeded random
 	n := 12000
 	if tier == "thorough" {
